@@ -8,7 +8,10 @@ R3 pairing: the final sample's fall-back duration is the track's own last delta 
 R4 same table: mdhd duration = sum of the durations list that the stts box of the same trak is built from;
 R5 ctts: composition offset = pts - dts per sample; the ctts box is present iff some offset is non-zero (the presence flag is the
    fold of `offset != 0` over the same offsets that are written).
-Not decided: the run-length encoders' arithmetic, exactness of f64 rounding for particular cadences."""
+R6 run-length tables (stts, ctts): a run is extended only when the run's value *equals* the current element, otherwise a new
+   run (1, element) is appended - so the table decodes to exactly the input list (no tolerance, no reordering).
+Not decided: exactness of f64 rounding for particular cadences."""
+from .. import guards
 from .. import boxcheck as B
 from .. import layout as L
 from .. import mir, sym
@@ -31,6 +34,8 @@ def check(prog, run):
     run.rule("R3", "fall-back duration of the final sample is the track's own last delta (C01.R5)")
     run.rule("R4", "mdhd duration = sum of the durations list that feeds the same trak's stts")
     run.rule("R5", "composition offset = pts - dts; ctts present iff some offset != 0 (fold over the written offsets)")
+    run.rule("R6", "run-length tables: a run is extended only on exact equality with the current element; otherwise a new run (1, element) is pushed")
+    rle_rule(prog, run)
     try:
         m = c01.Model(prog)
     except (AnchorMissing, L.Unanalysable) as e:
@@ -133,6 +138,57 @@ def check(prog, run):
             run.check(ok, "R4", "%s %s mdhd==sum(stts source)" % (key, kind), "mdhd.duration = sum(durations) of the list behind stts", "mdhd duration is %s, not the sum of the durations list that feeds stts" % d)
             if kind == "video":
                 ctts_rule(run, key, trak, m, q)
+
+
+def rle_rule(prog, run, R="R6"):
+    u = prog.lib
+    g = mir.Graph(u)
+    st = mir.Stores(g)
+    n = 0
+    for want in ("build_stts_box", "build_ctts_box"):
+        fns = [f for f in u.bodies if mir.norm(f).split("::")[-1] == want and not u.bodies[f]["in_test_cfg"]]
+        if len(fns) != 1:
+            run.bad(R, "anchor " + want, "run-length table builder not found")
+            continue
+        f = fns[0]
+        b = u.bodies[f]
+        incs, pushes, other = [], [], []
+        for (bb, i, (root, path), why, node) in st.sites[f]:
+            if root[0] != "local":
+                continue
+            if why.startswith("assign") and node.get("k") == "assign" and path[-1:] == ("0",):
+                e = sym.expr_rv(b, node["rv"])
+                if e[0] == "proj" and e[1][0] == "bin" and e[1][1] == "AddWithOverflow" and e[1][3][:2] == ("const", 1) and e[1][2][0] == "load":
+                    incs.append((bb, root, e[1][2][1], node))
+                    continue
+            if why.startswith("extcall") and why.endswith("Vec::push") and path == ():
+                val = sym.expr(b, node["args"][1])
+                pushes.append((bb, root, val, node))
+                continue
+            other.append((root, why))
+        if len(incs) != 1:
+            run.bad(R, want + " shape", "expected exactly one `run.count += 1` site, found %d: the run-length encoder is not in the analysable shape" % len(incs))
+            continue
+        bb, root, cnt_path, node = incs[0]
+        gs = guards.guards_of(b, bb)
+        ok = False
+        desc = "no guard"
+        if gs:
+            s_, d, tk = gs[-1]
+            desc = "%s -> %s" % (sym.show(d)[:120], tk)
+            val_path = cnt_path[:-1] + "1" if cnt_path.endswith(".0") else None
+            if d[0] == "bin" and d[1] == "Eq" and guards.truth(tk) and val_path:
+                sides = [d[2], d[3]]
+                is_val = [x for x in sides if x[0] == "load" and x[1] == val_path]
+                is_elem = [x for x in sides if x[0] == "load" and str(x[1]).startswith("arg1.[]")]
+                ok = len(is_val) == 1 and len(is_elem) == 1
+        run.check(ok, R, want + " merge-guard", "run extended only under `run.value == element`", "the run count is incremented under `%s`, which is not exact equality of the run's value with the current element: distinct durations/offsets are merged" % desc, mir.loc_of(node))
+        newrun = [p_ for p_ in pushes if p_[1] == root]
+        good = len(newrun) == 1 and newrun[0][2][0] == "agg" and newrun[0][2][1] == "tuple" and len(newrun[0][2][3]) == 2 and newrun[0][2][3][0][:2] == ("const", 1) \
+            and newrun[0][2][3][1][0] == "load" and str(newrun[0][2][3][1][1]).startswith("arg1.[]")
+        run.check(good, R, want + " new-run", "otherwise push (1, element)", "a new run is not appended as (1, current element): %s" % [sym.show(p_[2])[:80] for p_ in newrun], mir.loc_of(newrun[0][3]) if newrun else None)
+        n += 1
+    run.floor(R, n, 2, "run-length table builders")
 
 
 def _peel(e):
